@@ -64,6 +64,7 @@ impl TraitGenerics {
             params: &self.params,
             impl_t: None,
             takes_self_by_value: TakesSelfByValue(false),
+            for_impl: false,
         }
     }
 
@@ -85,6 +86,7 @@ impl TraitGenerics {
                 TraitDependencyMode::Concrete(_) => None,
             },
             takes_self_by_value,
+            for_impl: true,
         }
     }
 
@@ -97,6 +99,7 @@ impl TraitGenerics {
             params: &self.params,
             impl_t: Some(&idents.impl_t),
             takes_self_by_value,
+            for_impl: true,
         }
     }
 
@@ -159,6 +162,8 @@ pub struct ParamsGenerator<'g> {
     params: &'g syn::punctuated::Punctuated<syn::GenericParam, syn::token::Comma>,
     impl_t: Option<&'g syn::Ident>,
     takes_self_by_value: TakesSelfByValue,
+    /// An impl header: lifetimes come before the `T` of `Impl<T>`, and parameter defaults are not repeated
+    for_impl: bool,
 }
 
 impl quote::ToTokens for ParamsGenerator<'_> {
@@ -169,6 +174,14 @@ impl quote::ToTokens for ParamsGenerator<'_> {
             syn::token::Comma::default(),
             syn::token::Gt::default(),
         );
+
+        if self.for_impl {
+            for param in self.params {
+                if let syn::GenericParam::Lifetime(_) = param {
+                    punctuator.push(param);
+                }
+            }
+        }
 
         if let Some(impl_t) = &self.impl_t {
             punctuator.push_fn(|stream| {
@@ -195,7 +208,22 @@ impl quote::ToTokens for ParamsGenerator<'_> {
         }
 
         for param in self.params {
-            punctuator.push(param);
+            match param {
+                syn::GenericParam::Lifetime(_) if self.for_impl => {}
+                syn::GenericParam::Type(type_param) if self.for_impl => {
+                    let mut type_param = type_param.clone();
+                    type_param.eq_token = None;
+                    type_param.default = None;
+                    punctuator.push(type_param);
+                }
+                syn::GenericParam::Const(const_param) if self.for_impl => {
+                    let mut const_param = const_param.clone();
+                    const_param.eq_token = None;
+                    const_param.default = None;
+                    punctuator.push(const_param);
+                }
+                _ => punctuator.push(param),
+            }
         }
     }
 }
